@@ -388,6 +388,14 @@ def tensorBy (by_ : String) (d : DS α) : Option (List (List (List α)) × Col) 
             (List.range d.nChan).map (fun j => g.filterMap (fun r => (r[j]?).bind (·[0]?)))),
           us)
 
+/-- the constructor's check (`check_descriptor_length_error` on every descriptor dictionary,
+    rectangular measurement array): executable form of `WFex` -/
+def DS.wfB (d : DS α) : Bool :=
+  d.meas.all (fun r => r.length == d.nChan && r.all (fun c => c.length == d.nTime)) &&
+  d.obs.all (fun kc => kc.2.length == d.nObs) &&
+  d.chan.all (fun kc => kc.2.length == d.nChan) &&
+  d.time.all (fun kc => kc.2.length == d.nTime)
+
 /-! #### sessions: a workspace of datasets and operations addressed by position -/
 
 /-- all three axes non-empty and rectangular -/
